@@ -172,6 +172,8 @@ def typed_guard_ok(crate, fn, node, kind):
 
 
 def run(ck):
+    if getattr(ck, 'depth', 0) >= 2:
+        return      # a shared run of a shared run: nothing of it is selected, and mutual sharing must end somewhere
     F = ck.facts
     L = F.lib
     ck.explanation = (
